@@ -103,6 +103,9 @@ class Ctx:
         fails, per_fn, smt = vu.interpret(unit, meta, text, res)
         self.t('verus-smt', smt)
         for f in fails:
+            if 'vx_probe_eq(' in f['where'] and 'precondition' in f['msg']:
+                raise Undecided(unit.name, 'executable ==/!= without a specification in Verus (String, Vec, slice, Ordering ...): %s' % f['where'][:200])
+        for f in fails:
             if f['cls'] != 'semantic':
                 raise Undecided(unit.name, 'verus %s error: %s @ %s' % (f['cls'], f['msg'][:300], f['where'][:200]))
         vr = (res['json'] or {}).get('verification-results', {})
